@@ -109,6 +109,37 @@ def run(ctx):
         w = q.guard_true_dominates(g, s, lambda t: A.norm(t) == "self._deferred_pause_requested", "T")
         ctx.ob("C09.D2-checkpoint-order", cname(cp, None, "pause only when a deferred request is pending"), w is None,
                "" if w is None else "the checkpoint pauses without a pending deferred request", nontrivial=True, witness=w, where=where(cp, s))
+    # the deferred request is consumed at a 'checkpoint' message and nowhere else: the handler is referenced only as the registry's
+    # entry for "checkpoint", and no other function turns the pending flag into a pause
+    cpname = cp.qualname.split(".")[-1]
+    allowed_ids, seen, n_ref = set(), set(), 0
+    for f in repo.all_funcs():
+        for d in ast.walk(f.node):
+            if isinstance(d, ast.Dict):
+                allowed_ids |= {id(v) for k, v in zip(d.keys, d.values) if k is not None and A.const_str(k) == "checkpoint"}
+            if isinstance(d, ast.Assign) and isinstance(d.targets[0], ast.Subscript) and A.const_str(d.targets[0].slice) == "checkpoint":
+                allowed_ids.add(id(d.value))
+    for f in repo.all_funcs():
+        for s_ in reversed(list(A.walk_stmts(f.node.body))):  # innermost statement first
+            if isinstance(s_, (ast.FunctionDef, ast.AsyncFunctionDef, ast.ClassDef)):
+                continue
+            for n in ast.walk(s_):
+                if isinstance(n, ast.Attribute) and n.attr == cpname and id(n) not in seen:
+                    seen.add(id(n))
+                    n_ref += 1
+                    ok = id(n) in allowed_ids
+                    ctx.ob("C09.D2-pause-only-at-checkpoint", cname(f, s_, f"reference to {cpname}"), ok,
+                           "" if ok else f"`{A.head(s_)}` runs the checkpoint handler for a message that is not a checkpoint: a pending deferred pause is taken there, "
+                           "i.e. not at the next checkpoint, and the message gets checkpoint semantics", nontrivial=True, where=where(f, s_))
+                if isinstance(n, ast.Attribute) and n.attr in ("_deferred_pause_requested", "deferred_pause_requested") and isinstance(n.ctx, ast.Load) and id(n) not in seen:
+                    seen.add(id(n))
+                    if f.qualname in (cp.qualname, prop.qualname):
+                        continue
+                    acts = [c for c in A.calls_in(f.node) if "request_pause" in (A.call_name(c) or "")] + [x for x in A.walk_stmts(f.node.body) if rm.is_state_write(x)]
+                    ctx.ob("C09.D2-pause-only-at-checkpoint", cname(f, s_, "reads the pending flag"), not acts,
+                           "" if not acts else "a function other than the checkpoint handler reads the pending deferred request and pauses / changes the state",
+                           where=where(f, s_))
+    ctx.ob("C09.D2-pause-only-at-checkpoint", f"{MOD}:references to the checkpoint handler", n_ref >= 1, f"{n_ref} reference(s)", where="")
     # the bundling guard raises before the reset
     guard = [s for s in A.walk_stmts(cp.node.body) if isinstance(s, ast.If) and "bundling" in A.norm(s.test)
              and any(isinstance(x, ast.Raise) and "IllegalMessageSequence" in A.norm(x) for x in s.body)]
